@@ -19,9 +19,11 @@ from engines import e1_monitors as mon
 PROP = 'C11'
 RUN_WALL = 30
 HARD_WALL = 600
-KINDS = ['identical', 'vectorized', 'vectorized', 'pool_l', 'pool_l',
-         'verbose', 'ckpt', 'observe', 'observe', 'pool_s_order']
+KINDS = ['identical', 'vectorized', 'vectorized', 'vectorized', 'pool_l',
+         'pool_l', 'verbose', 'ckpt', 'observe', 'observe', 'pool_s_order']
 PROFILE = dict(p_pool_l=0.3, p_pool_s=0.15,
+               prior_choices=['fn', 'fn', 'fn_inplace', 'fn_inplace', 'obj',
+                              'obj_array', 'fn_dict'],
                fault_kinds=['slice', 'slice', 'stop_resume', 'timeout'])
 
 
